@@ -15,6 +15,11 @@ def _pj(c, t):
     return (lambda j: t[j]) if c.mode == "sym" else None
 
 
+def _pr(c, Rs):
+    """trigger for quantifiers over the index r of a candidate shading"""
+    return (lambda r: c.index_mark(Rs, r)) if c.mode == "sym" else None
+
+
 def _notin(c, t, n, q):
     return c.forall(0, n, lambda j: t[j] != q, pattern=_pj(c, t))
 
@@ -38,7 +43,8 @@ def _outer(c, st, k):
     perm, patt, Rs = st.perm, st.patt, st.Rs
     n = c.len(patt)
     R = c.call("Perm.occurrences_in", patt, perm)
-    return c.forall(0, k, lambda m: c.forall(0, c.len(Rs), lambda r: c.not_(_free_of(c, perm, n, R[m], Rs[r]))))
+    return c.forall(0, k, lambda m: c.forall(0, c.len(Rs), lambda r: c.not_(_free_of(c, perm, n, R[m], Rs[r])), pattern=_pr(c, Rs)),
+                    pattern=(lambda m: OCC._rowfun(R)(m.t)) if c.mode == "sym" else None)
 
 
 def _inner(c, st, k2):
@@ -54,7 +60,7 @@ def _inner(c, st, k2):
         st.x == c.count_below(row, k2),
         c.len(cand) == n,
         # for every candidate shading: the boxes hit so far avoid it  <=>  the points seen so far respect it
-        c.forall(0, c.len(Rs), lambda r: c.iff(misses(r), _free_of(c, perm, n, row, Rs[r], upto=k2))),
+        c.forall(0, c.len(Rs), lambda r: c.iff(misses(r), _free_of(c, perm, n, row, Rs[r], upto=k2)), pattern=_pr(c, Rs)),
     )
 
 
